@@ -44,7 +44,9 @@ META = {
                 'overridden by the write set; first write attempt takes the lock; parent write under lock fails at timeout=0)',
                 'CPython weakref/GC: an instance dies when neither the application nor a strong cache entry references it '
                 '(harness runs gc.collect() after every drop/cull)'],
-    'modelled': ['cull timing: the harness observes which keys a real cull moved and feeds `weaken`/`purge` steps to the model',
+    'modelled': ['cascading deletes (cascade=True / \'null\' foreign keys) through a transaction are outside the Lean model: a separate '
+                 'oracle-only stream checks isolation, commit = view and rollback over all tables with the raw observer',
+                 'cull timing: the harness observes which keys a real cull moved and feeds `weaken`/`purge` steps to the model',
                  'only eager classes with cached values, no joins/foreign keys, explicit ids',
                  'transaction-bound class access `t.Cls.get()` is only exercised on an obsolete transaction: ConnWrapper.__getattr__ '
                  'uses inspect.getargspec, which Python 3.12 no longer has (AttributeError on an active transaction)',
@@ -703,6 +705,217 @@ CORPUS = [
 ]
 
 
+# -------------------------------------------------------------------- cascading deletes through a transaction
+# (oracle only: the Lean model has no foreign keys; isolation / commit / rollback are checked over ALL tables)
+class CascadeWorld:
+    """owner rows referenced by dependent rows through a cascade=True and a cascade='null' foreign key; the same
+    raw-observer oracle as above, over both tables"""
+
+    def __init__(self, dc):
+        e = env()
+        if 'own' not in e:
+            from sqlobject import SQLObject, IntCol, ForeignKey
+            e['own'] = type('C07Own', (SQLObject,), {'n': IntCol()})
+            e['dep'] = type('C07Dep', (SQLObject,), {'own': ForeignKey('C07Own', cascade=True),
+                                                     'alt': ForeignKey('C07Own', cascade='null', default=None),
+                                                     'n': IntCol()})
+        e['count'][0] += 1
+        self.own, self.dep = e['own'], e['dep']
+        self.path = os.path.join(e['dir'], 'c%d.db' % e['count'][0])
+        self.conn = sqlo.file_conn(self.path, timeout=0, cache=dc)
+        for c in (self.own, self.dep):
+            c._connection = self.conn
+            c.createTable()
+        self.raw = sqlite3.connect(self.path, isolation_level=None, timeout=0)
+        self.t = self.conn.transaction()
+        self.h = {'P': [], 'T': []}
+        self.fails = []
+        self.obsolete = False
+        self.raw_now = self.tables(self.raw.execute)
+        self.view_now = self.tx_tables()
+        self.answers = []
+
+    def close(self):
+        try:
+            self.h = {'P': [], 'T': []}
+            try:
+                self.t.rollback()
+            except Exception:
+                pass
+            self.t = None
+            self.raw.close()
+            self.conn.close()
+        finally:
+            for suffix in ('', '-journal'):
+                try:
+                    os.unlink(self.path + suffix)
+                except OSError:
+                    pass
+
+    def tables(self, q):
+        def rows(sql):
+            r = q(sql)
+            return r.fetchall() if hasattr(r, 'fetchall') else r
+        return (dict((r[0], r[1]) for r in rows('SELECT id, n FROM %s' % self.own.sqlmeta.table)),
+                dict((r[0], tuple(r[1:])) for r in rows('SELECT id, own_id, alt_id, n FROM %s' % self.dep.sqlmeta.table)))
+
+    def tx_tables(self):
+        try:
+            return self.tables(self.t.queryAll)
+        except AssertionError:
+            return None
+        except Exception as e:
+            self.fails.append((None, 'a query through the transaction fails with %s' % type(e).__name__, 'refusal-kind'))
+            return None
+
+    def do(self, op):
+        kind = op[0]
+        sd = op[1] if kind not in TX_KINDS else 'T'
+        raw_before, view_before, was_obsolete = self.raw_now, self.view_now, self.obsolete
+        kw = {'connection': self.t} if sd == 'T' else {}
+        try:
+            if kind == 'ocreate':
+                self.h[sd].append(self.own(id=op[2], n=op[3], **kw))
+            elif kind == 'dcreate':
+                self.h[sd].append(self.dep(id=op[2], ownID=op[3], altID=op[4], n=op[5], **kw))
+            elif kind in ('oget', 'dget'):
+                cls = self.own if kind == 'oget' else self.dep
+                self.h[sd].append(cls.get(op[2], **kw))
+            elif kind in ('destroy', 'set', 'read'):
+                if op[2] >= len(self.h[sd]):
+                    ans = 'bad'
+                    raise LookupError
+                obj = self.h[sd][op[2]]
+                if kind == 'destroy':
+                    obj.destroySelf()
+                elif kind == 'set':
+                    obj.n = op[3]
+                else:
+                    obj.n
+            elif kind == 'commit':
+                self.t.commit(close=bool(op[1]))
+            elif kind == 'rollback':
+                self.t.rollback()
+            elif kind == 'begin':
+                self.t.begin()
+            ans = 'ok'
+        except LookupError:
+            ans = 'bad'
+        except Exception as e:
+            ans = exc(e)
+        self.answers.append('%s -> %s' % (' '.join(str(x) for x in op), ans))
+        self.raw_now = self.tables(self.raw.execute)
+        self.view_now = self.tx_tables()
+        raw, view = self.raw_now, self.view_now
+        if kind == 'commit' and ans == 'ok' and not was_obsolete and op[1]:
+            self.obsolete = True
+        elif kind == 'rollback' and ans == 'ok':
+            self.obsolete = True
+        elif kind == 'begin' and ans == 'ok':
+            self.obsolete = False
+        if (view is None) != self.obsolete:
+            self.fails.append((None, 'transaction state and refusal disagree after %s' % kind, 'obsolete-flag'))
+        if sd == 'T' and not (kind == 'commit' and not was_obsolete) and raw != raw_before:
+            self.fails.append((None, 'committed rows of some table changed by transaction-side %s (not a commit): %s -> %s'
+                               % (kind, raw_before, raw), 'cascade-isolation'))
+        if kind == 'commit' and not was_obsolete and ans == 'ok' and raw != view_before:
+            self.fails.append((None, 'after commit the committed tables are %s, the transaction saw %s' % (raw, view_before),
+                               'cascade-commit-applies-view'))
+        if kind == 'begin' and ans == 'ok' and view != raw:
+            self.fails.append((None, 'after rollback/close + begin the transaction sees %s, committed %s' % (view, raw),
+                               'cascade-begin-view'))
+
+
+def run_cascade(dc, ops):
+    w = CascadeWorld(dc)
+    try:
+        for op in ops:
+            w.do(tuple(op))
+        return w.answers, w.fails
+    finally:
+        w.close()
+
+
+def gen_cascade(rng, length, dc):
+    w = CascadeWorld(dc)
+    ops = []
+    try:
+        for _ in range(length):
+            tx_dirty = w.view_now is not None and w.view_now != w.raw_now
+            sd = 'T' if (tx_dirty or rng.random() < 0.6) else 'P'
+            ref = w.raw_now if (sd == 'P' or w.view_now is None) else w.view_now
+            owners, deps = sorted(ref[0]), sorted(ref[1])
+            r = rng.random()
+            if w.obsolete and rng.random() < 0.6:
+                op = ('begin',)
+            elif r < 0.15 or not owners:
+                op = ('ocreate', sd, rng.randint(1, 4), rng.randint(0, 9))
+            elif r < 0.35:
+                op = ('dcreate', sd, rng.randint(1, 5), rng.choice(owners),
+                      rng.choice(owners) if rng.random() < 0.6 else None, rng.randint(0, 9))
+            elif r < 0.50:
+                op = ('oget', sd, rng.choice(owners))
+            elif r < 0.58 and deps:
+                op = ('dget', sd, rng.choice(deps))
+            elif r < 0.76 and w.h[sd]:
+                op = ('destroy', sd, rng.randrange(len(w.h[sd])))
+            elif r < 0.84 and w.h[sd]:
+                op = ('set', sd, rng.randrange(len(w.h[sd])), rng.randint(10, 99))
+            elif r < 0.90:
+                op = ('commit', 1 if rng.random() < 0.2 else 0)
+            elif r < 0.97:
+                op = ('rollback',)
+            else:
+                op = ('begin',)
+            ops.append(op)
+            w.do(op)
+        return ops, w.answers, w.fails
+    finally:
+        w.close()
+
+
+CASCADE_CORPUS = [
+    ('cascade=True and cascade=null dependants of a row deleted through the transaction, then rollback', True,
+     [('ocreate', 'P', 1, 1), ('ocreate', 'P', 2, 2), ('dcreate', 'P', 1, 1, None, 5), ('dcreate', 'P', 2, 2, 1, 6),
+      ('oget', 'T', 1), ('destroy', 'T', 0), ('rollback',), ('begin',), ('oget', 'T', 1)]),
+    ('the same, committed', True,
+     [('ocreate', 'P', 1, 1), ('ocreate', 'P', 2, 2), ('dcreate', 'P', 1, 1, None, 5), ('dcreate', 'P', 2, 2, 1, 6),
+      ('oget', 'T', 1), ('destroy', 'T', 0), ('oget', 'P', 1), ('dget', 'P', 1), ('commit', 0), ('dget', 'P', 2)]),
+    ('cache=False', False,
+     [('ocreate', 'P', 1, 1), ('dcreate', 'P', 1, 1, 1, 5), ('oget', 'T', 1), ('destroy', 'T', 0), ('commit', 1), ('begin',)]),
+]
+
+
+def shrink_generic(runner, dc, ops, detail, budget=120):
+    def bad(o):
+        try:
+            fails = runner(dc, o)[-1]
+        except Exception:
+            return False
+        return any(k is None and d == detail for k, _, d in fails)
+    ops = list(ops)
+    changed = True
+    while changed and budget > 0:
+        changed = False
+        i = len(ops) - 1
+        while i >= 0 and budget > 0:
+            cand = ops[:i] + ops[i + 1:]
+            budget -= 1
+            if bad(cand):
+                ops = cand
+                changed = True
+            i -= 1
+    return ops
+
+
+def report_cascade(ctx, dc, ops, fails):
+    for key, what, detail in fails[:1]:
+        _unknown[0] += 1
+        small = shrink_generic(run_cascade, dc, ops, detail) if _unknown[0] <= 3 else ops
+        k2 = 'C07:%s:%s' % (detail, '-'.join(o[0] + (o[1] if o[0] not in TX_KINDS else '') for o in small))
+        ctx.oracle_fail(k2, what, {'cascade': True, 'dc': dc, 'ops': [list(o) for o in small]})
+
+
 def shrink(dc, ops, detail):
     """greedy one-at-a-time removal keeping an unlisted failure of the same kind"""
     def bad(o):
@@ -774,6 +987,19 @@ def run(ctx):
         lines, impl, fails = run_ops(dc, ops)
         ctx.case(('corpus', name), sample={'corpus': name, 'answers': impl[-2:]}, kind='corpus')
         report(ctx, name, dc, ops, lines, impl, fails, expect)
+    # cascading deletes through the transaction: isolation / commit / rollback over all tables (oracle only)
+    for name, dc, ops in CASCADE_CORPUS:
+        answers, fails = run_cascade(dc, ops)
+        ctx.case(('cascade-corpus', name), sample={'cascade': name, 'answers': answers[-3:]}, kind='cascade corpus')
+        report_cascade(ctx, dc, ops, fails)
+    for h in range(ctx.budget(250, 2500)):
+        if _unknown[0] >= 12:
+            break
+        dc = rng.random() < 0.8
+        ops, answers, fails = gen_cascade(rng, rng.randint(4, 14), dc)
+        ctx.case(('cascade', tuple(answers)), nontrivial=any(o[0] == 'destroy' for o in ops),
+                 sample={'cascade': [list(o) for o in ops[:10]], 'answers': answers[-2:]}, kind='cascade history')
+        report_cascade(ctx, dc, ops, fails)
     n = ctx.budget(1500, 11000)
     for h in range(n):
         if _unknown[0] >= 12:
@@ -794,6 +1020,9 @@ def run(ctx):
 
 def replay(case):
     env()
+    if case.get('cascade'):
+        answers, fails = run_cascade(case['dc'], [tuple(o) for o in case['ops']])
+        return not fails, '\n'.join(answers + ['ORACLE: %s' % w for _, w, _ in fails])
     lines, impl, fails = run_ops(case['dc'], [tuple(o) for o in case['ops']])
     text = '\n'.join('%-22s -> %s' % (l, i) for l, i in zip(lines, impl))
     text += '\n' + '\n'.join('ORACLE: [%s] %s' % (k, w) for k, w, _ in fails)
